@@ -374,6 +374,39 @@ void replay20(Options const& o, Shim* s, Recorder& rec)
          c.xangle(s, fn, t, dg, s->fm_xangle(fn, t, C20::carry(t, dg)), s->fm_xangle(fn, T_I32, C20::carry(T_I32, dg)), 0, d); }
   rec.add_states(1,1,1);
   }
+bool judge19(Shim* s, Recorder& rec, std::string const& kind, std::vector<u64> const& a, u64 value, u64 idx)
+  {
+  static C19* c = new C19(rec); DirectViol d{rec};
+  i64 got = static_cast<i64>(value);
+  if( kind == "angle_aprox" && a.size() == 2 ) { c->angle_value(s, static_cast<int>(a[0]), static_cast<int32_t>(static_cast<i64>(a[1])), got, idx, d); return true; }
+  if( kind == "un" && a.size() == 2 && a[0] == U_SQRT_APROX ) { i64 x = static_cast<i64>(a[1]); if( x < (1ll << 37) && (fx_finite(x) || fx_isnan(x)) ) c->sqrt_aprox(s, x, got, idx, d); return true; }
+  if( kind == "un" && a.size() == 2 && a[0] == U_ATAN_INDEX_APROX ) { i64 x = static_cast<i64>(a[1]); if( x > -(1ll << 47) && x < (1ll << 47) ) c->atan_index(s, x, got, idx, d); return true; }
+  return false;
+  }
+bool judge20(Shim* s, Recorder& rec, std::string const& kind, std::vector<u64> const& a, u64 value, u64 idx)
+  {
+  static C20* c = new C20(rec); DirectViol d{rec};
+  i64 got = static_cast<i64>(value);
+  if( kind == "a2r" && a.size() == 2 ) { c->radians(s, static_cast<int>(a[0]), a[1], got, idx, d); return true; }
+  int fn = -1, t = -1; bool have = false; i64 dg = 0;
+  if( kind == "xangle" && a.size() == 3 )
+    {
+    fn = static_cast<int>(a[0]); t = static_cast<int>(a[1]);
+    if( is_int_type(t) ) { i128 n = int_value(t, a[2]); if( n >= -360 && n <= 360 ) { have = true; dg = static_cast<i64>(n); } }
+    else if( t == T_F32 ) { uint32_t b = static_cast<uint32_t>(a[2]); float f; std::memcpy(&f, &b, 4); if( f >= -360.0f && f <= 360.0f && f == std::floor(f) ) { have = true; dg = static_cast<i64>(f); } }
+    else return false;
+    }
+  else if( kind == "un" && a.size() == 2 && (a[0] == U_SIN_ANGLE_FX || a[0] == U_COS_ANGLE_FX || a[0] == U_TAN_ANGLE_FX) )
+    {
+    fn = a[0] == U_SIN_ANGLE_FX ? A_SIN : a[0] == U_COS_ANGLE_FX ? A_COS : A_TAN; t = T_FIXED;
+    i64 x = static_cast<i64>(a[1]); if( x % 65536 == 0 && x >= -360 * 65536 && x <= 360 * 65536 ) { have = true; dg = x / 65536; }
+    }
+  else return false;
+  if( have ) c->xangle(s, fn, t, static_cast<int>(dg), got, got, idx, d);      // agreement between argument types relates two calls: a law line
+  return true;
+  }
 }
 REGISTER_PROPERTY(C19, explore19, replay19)
+REGISTER_JUDGE(C19, judge19)
+REGISTER_JUDGE(C20, judge20)
 REGISTER_PROPERTY(C20, explore20, replay20)
